@@ -1,5 +1,6 @@
 import VermouthProofs.C18
 import VermouthProofs.C18_Select
+import VermouthProofs.C18_Pipeline
 /-!
 # C18 — Go-model sites and contacts mirror the backbone and the contact map
 
@@ -349,5 +350,112 @@ end loop
 /-- a decidable sufficient condition for `TypeDeterminesKey` -/
 theorem go_types_separate (P : Params) (rs : List Residue) (h : TypesSeparate P.pre rs) :
     TypeDeterminesKey P rs := typesSeparate_determines h
+
+/-- a decidable sufficient condition for `KeysDistinct` -/
+theorem go_keys_distinct (rs : List Residue) (h : (rs.map (fun r => (r.chain, r.old))).Nodup) :
+    KeysDistinct rs := by
+  intro i j ri rj hi hj hc ho _
+  have hlt : i < (rs.map (fun r => (r.chain, r.old))).length := by
+    have := (List.getElem?_eq_some_iff.mp hi).1
+    simpa using this
+  apply (List.getElem?_inj hlt h).mp
+  simp only [List.getElem?_map, hi, hj, Option.map_some, hc, ho]
+
+/-! ## the residue graph and the composed pipeline -/
+
+/-- the residues partition the node table: every atom lies in a residue, all members of a residue
+share (chain, resid, resname), and no two residues share that triple -/
+theorem residues_partition (atoms : List Atom) :
+    (∀ b, (∃ r ∈ residuesOf atoms, b ∈ r.members) ↔ b ∈ atoms)
+    ∧ (∀ r ∈ residuesOf atoms, ∀ a ∈ r.members, (r.chain, r.resid, r.resname) = (a.chain, a.resid, a.resname))
+    ∧ ((residuesOf atoms).map (fun r => (r.chain, r.resid, r.resname))).Nodup :=
+  ⟨mem_residuesOf atoms, (residuesOf_inv atoms).members_has, (residuesOf_inv atoms).keys_nodup⟩
+
+section pipeline
+variable (P : Params) (vsn : String) (atoms : List Atom) (edges : List (Int × Int)) (contacts : List Contact)
+
+/-- residues and residue-graph edges of the molecule after virtual-site creation -/
+def pipelineResidues : List Residue :=
+  residuesOf (withSites atoms (addVirtualSites P.pre P.backbone vsn atoms))
+def pipelineEdges : List (Nat × Nat) := resEdges (pipelineResidues P vsn atoms) edges
+
+/-- In the molecule produced by the pipeline, Go type names determine residue keys as soon as the
+backbone particles carry distinct residue numbers and no ordinary bead type starts with the prefix. -/
+theorem pipeline_type_determines_key
+    (h1 : ((backboneAtoms P.backbone atoms).map (·.resid)).Nodup)
+    (h2 : ∀ a ∈ atoms, startsWith a.atype P.pre = false) :
+    TypeDeterminesKey P (pipelineResidues P vsn atoms) :=
+  typesSeparate_determines (pipeline_types_separate P.pre P.backbone vsn atoms h1 h2)
+
+/-- **`go_pair_iff` for `GoPipeline`**: all hypotheses are decidable statements about the input. -/
+theorem pipeline_go_pair_iff (out : List Cand)
+    (hok : (goPipeline P vsn atoms edges contacts).2 = .ok out)
+    (hnd : contacts.Nodup)
+    (h1 : ((backboneAtoms P.backbone atoms).map (·.resid)).Nodup)
+    (h2 : ∀ a ∈ atoms, startsWith a.atype P.pre = false) (y : Cand) :
+    (y ∈ out ∨ y.swap ∈ out) ↔
+      ∃ c ∈ contacts, c.swap ∈ contacts ∧
+        Eligible P (pipelineResidues P vsn atoms) (pipelineEdges P vsn atoms edges) c y :=
+  go_pair_iff P _ _ contacts out hok hnd (pipeline_type_determines_key P vsn atoms h1 h2) y
+
+theorem pipeline_go_pair_once (out : List Cand)
+    (hok : (goPipeline P vsn atoms edges contacts).2 = .ok out)
+    (hnd : contacts.Nodup)
+    (h1 : ((backboneAtoms P.backbone atoms).map (·.resid)).Nodup)
+    (h2 : ∀ a ∈ atoms, startsWith a.atype P.pre = false) :
+    (out.map Cand.triple).Nodup ∧ ∀ y ∈ out, y.swap ∉ out :=
+  go_pair_once P (pipelineResidues P vsn atoms) (pipelineEdges P vsn atoms edges) contacts out hok hnd
+    (pipeline_type_determines_key P vsn atoms h1 h2)
+
+theorem pipeline_exclusion_iff (out : List Cand)
+    (hok : (goPipeline P vsn atoms edges contacts).2 = .ok out)
+    (hnd : contacts.Nodup)
+    (h1 : ((backboneAtoms P.backbone atoms).map (·.resid)).Nodup)
+    (h2 : ∀ a ∈ atoms, startsWith a.atype P.pre = false) (a b : Int) :
+    ((a, b) ∈ exclusionsOf out ∨ (b, a) ∈ exclusionsOf out) ↔
+      ∃ c ∈ contacts, c.swap ∈ contacts ∧ ∃ y,
+        Eligible P (pipelineResidues P vsn atoms) (pipelineEdges P vsn atoms edges) c y ∧ y.bbA = a ∧ y.bbB = b :=
+  exclusion_iff P (pipelineResidues P vsn atoms) (pipelineEdges P vsn atoms edges) contacts out hok hnd
+    (pipeline_type_determines_key P vsn atoms h1 h2) a b
+
+end pipeline
+
+/-! ## non-vacuity: a concrete two-chain molecule satisfying every hypothesis
+
+Chains A and B share the input resids 1, 2 (merged resids 1..4); keys are sparse; residues A1–A2 and
+B1–B2 are bonded, A2–B1 are cross-linked through their side chains.  Contact map: A1–B2 listed in both
+directions (graph distance 3 > 1, distance 5 inside (1/2, 6)), A1–A2 in both directions (too close in
+the graph), A1–B1 in one direction only, and a line naming an absent residue. -/
+namespace Example
+
+def mk (key : Int) (name : String) (resid old : Int) (chain ty : String) (p : Pos) : Atom :=
+  { key := key, atomname := name, resid := resid, oldResid := old, resname := "ALA", chain := chain,
+    atype := ty, cg := some key, pos := p, ss := none }
+
+def atoms : List Atom :=
+  [mk 2 "BB" 1 1 "A" "P2" (0, 0, 0), mk 3 "BB" 2 2 "A" "SP2" (1, 0, 0), mk 5 "SC1" 2 2 "A" "TC5" (1, 1, 0),
+   mk 6 "BB" 3 1 "B" "P2" (0, 4, 0), mk 7 "SC1" 3 1 "B" "SC3" (0, 4, 1), mk 9 "BB" 4 2 "B" "P2" (3, 4, 0)]
+def edges : List (Int × Int) := [(2, 3), (3, 5), (6, 7), (6, 9), (5, 7)]
+def contacts : List Contact :=
+  [⟨1, "A", 2, "B"⟩, ⟨1, "A", 2, "A"⟩, ⟨1, "A", 1, "B"⟩, ⟨2, "A", 1, "A"⟩, ⟨7, "A", 1, "A"⟩, ⟨2, "B", 1, "A"⟩]
+def P : Params := { pre := "mol_0", backbone := "BB", low := ⟨1, 2⟩, up := ⟨6, 1⟩, sep := 1 }
+
+example : contacts.Nodup := by decide
+example : ((backboneAtoms P.backbone atoms).map (·.resid)).Nodup := by decide
+example : ∀ a ∈ atoms, startsWith a.atype P.pre = false := by decide
+example : ((pipelineResidues P "CA" atoms).map (fun r => (r.chain, r.old))).Nodup := by decide
+/-- four sites, keys 10..13 after the largest key 9 -/
+example : (addVirtualSites P.pre P.backbone "CA" atoms).map (fun v => (v.key, v.bb, v.atype, v.cg))
+    = [(10, 2, "mol_0_1", 10), (11, 3, "mol_0_2", 11), (12, 6, "mol_0_3", 12), (13, 9, "mol_0_4", 13)] := by decide
+/-- exactly the symmetric, separated, in-window contact is emitted, at its second occurrence -/
+example : (goPipeline P "CA" atoms edges contacts).2
+    = .ok [{ ta := "mol_0_4", tb := "mol_0_1", d2 := 25, bbA := 9, bbB := 2 }] := by decide
+/-- on the cut-off itself (d = 5 = up) nothing is emitted: the window is strict -/
+example : (goPipeline { P with up := ⟨5, 1⟩ } "CA" atoms edges contacts).2 = .ok [] := by decide
+/-- two backbone particles with the same residue number (here: in different chains) get the same type -/
+example : ((addVirtualSites "m" "BB" "CA"
+    [mk 1 "BB" 5 5 "A" "P2" (0, 0, 0), mk 2 "BB" 5 5 "B" "P2" (1, 0, 0)]).map (·.atype)) = ["m_5", "m_5"] := by decide
+
+end Example
 
 end C18
